@@ -17,6 +17,9 @@ import (
 
 type hashState struct{ ps []piece }
 
+// b64Src: SMT term of a base64 text produced by EncodeToString on symbolic bytes -> those bytes
+var b64Src = map[string]value{}
+
 func hashOf(v value) *hashState {
 	s := derefStruct(v, "hash")
 	h, ok := s[0].(*hashState)
@@ -102,7 +105,12 @@ func init() {
 		default:
 			en = base64.RawStdEncoding
 		}
-		return enc("base64", en.EncodeToString)(fr, a)
+		out := enc("base64", en.EncodeToString)(fr, a)
+		if ss, ok := out.(symStr); ok {
+			// remember what was encoded: decoding this very string gives it back (the encoding is a bijection)
+			b64Src[ss.t] = a[len(a)-1]
+		}
+		return out
 	}
 	I["(*encoding/base64.Encoding).DecodeString"] = func(fr *frame, a []value) value {
 		e := derefStruct(a[0], "base64.Encoding")
@@ -122,6 +130,11 @@ func init() {
 		}
 		s, ok := a[1].(string)
 		if !ok {
+			if ss, isSym := a[1].(symStr); isSym {
+				if src, known := b64Src[ss.t]; known {
+					return tuple{src, iface{}}
+				}
+			}
 			panic(engineErr("base64 decode of a symbolic string"))
 		}
 		b, err := en.DecodeString(s)
